@@ -61,7 +61,7 @@ static DROPS: Mutex<Drops> = Mutex::new(Drops { counts: Vec::new(), bad: 0 });
 
 impl Drop for Tracked {
     fn drop(&mut self) {
-        let mut d = DROPS.lock().unwrap();
+        let mut d = DROPS.lock().unwrap_or_else(|e| e.into_inner());
         if self.magic == MAGIC && self.check == !self.id && (self.id as usize) < d.counts.len() {
             d.counts[self.id as usize] += 1;
         } else {
@@ -371,6 +371,7 @@ fn run_replay(report: &Report, input: &Value) -> Result<(), Fail> {
             match out.failure {
                 Some(f) => Err(f.fail),
                 None if out.diverged => {
+                    crate::explore::REPLAY_INCONCLUSIVE.store(true, std::sync::atomic::Ordering::SeqCst);
                     report.note_inconclusive("the recorded schedule no longer fits the program (the code under test changed its sequence of synchronisation operations)");
                     Ok(())
                 }
@@ -391,12 +392,7 @@ pub fn run(args: &Args) {
     if let Some(path) = &args.replay {
         let v = vcore::read_replay(path);
         let r = run_replay(&report, &v["input"]);
-        report.case(Some(&v["input"].to_string()), &["replay"]);
-        report.case(Some("replay-marker"), &[]);
-        if let Err(f) = r {
-            report.violation("replay", &f, v["input"].clone());
-        }
-        report.finish();
+        crate::explore::finish_replay(&report, &v["input"], r);
     }
     report.run_regressions(|input| run_replay(&report, input));
 
